@@ -16,6 +16,7 @@ def make_validator(schema, cfg):
 
 def real_api(schema, cfg, doc, update, api):
     """api in validate / validate_nonorm / normalized; returns outcome dict"""
+    cfg = vrun.real_cfg(cfg)
     try:
         v = make_validator(copy.deepcopy(schema), copy.deepcopy(cfg))
     except cerberus.SchemaError as e:
@@ -72,7 +73,9 @@ def gen_cases(seed, n, p_update=0.2, **kw):
         cfg = g.config()
         k = g.r.random()
         doc = g.doc_for(schema, p_present=0.65) if k < 0.85 else g.arbitrary_doc()
-        cases.append({"schema": schema, "config": cfg, "document": doc, "update": g.r.random() < p_update})
+        upd = g.r.random() < p_update
+        schema, cfg = vrun.with_references(g, schema, cfg)
+        cases.append({"schema": schema, "config": cfg, "document": doc, "update": upd})
     return cases
 
 
